@@ -29,7 +29,7 @@ func ruleC16(c *Ctx) {
 	c.Trusted = []string{"REBASE format 31 tags as encoded in rules_C16.go", "encoding/json sorts map keys"}
 	c.floor("FIELDMAP", 10)
 	c.floor("TERM", 1)
-	c.floor("INDENT", 3)
+	c.floor("INDENT", 4)
 	c.floor("TAGS", 1)
 	c.floor("WRAPPERS", 2)
 	w := c.W
@@ -247,6 +247,21 @@ func ruleC16(c *Ctx) {
 	if sup == nil {
 		c.undecided("INDENT", "supplier table", parse.Pos(), "no map[rune]string supplier table is filled")
 	} else {
+		// the supplier's name is taken from the line as written
+		nameT := view.T(supFn, sup.Value)
+		stNm, whyNm := unknown, "the supplier name is "+short(nameT.String())
+		switch {
+		case nameT.contains(func(x *Term) bool { return x.isCall("strings.Fields") }):
+			stNm, whyNm = broken, "the supplier name is rebuilt from strings.Fields(line): runs of blanks, tabs and trailing blanks inside the name are normalised, so the decoded supplier is not the text of the file's own table"
+		case nameT.Op == "slice" && len(nameT.Args) == 3 && nameT.Args[2].Op == "nil":
+			if off, ok := nameT.Args[1].constInt(); ok {
+				stNm = holds
+				if off != 9 {
+					stNm, whyNm = broken, fmt.Sprintf("the supplier name starts at column %d of the trimmed line; the table puts the code in column 0 and the name in column 9", off)
+				}
+			}
+		}
+		c.judge(stNm, "INDENT", "supplier name = trimmed line from column 9, as written", sup.Pos(), "name = trimmed[9:]", whyNm)
 		k := view.T(supFn, sup.Key)
 		var trims []*Term
 		k.walk(func(x *Term) {
